@@ -598,13 +598,19 @@ static inline uint64_t call_ext(int which, uint64_t x) {
   if (which == 24) return static_cast<uint32_t>(phosg::ext24(static_cast<uint32_t>(x)));
   return static_cast<uint64_t>(phosg::ext48(x));
 }
-// case: n = [24 | 48, x]  (x within the narrow width)
+// case: n = [24 | 48, x]  (x within the narrow width; bits above it are allowed only when the narrow value is
+// negative - a tag byte above a signed 24-bit displacement, say: the top bit must then still be replicated into ALL
+// upper bits. What a non-negative narrow value with stray upper bits yields is not settled by the property.)
 static void run_ext(const Case& c) {
   uint64_t which = c.u(0), x = c.u(1);
   if (which != 24 && which != 48) throw std::logic_error("bad ext width");
-  if (x & ~mask_bits(static_cast<int>(which))) throw std::logic_error("value wider than the narrow type");
+  bool negative = (x >> (which - 1)) & 1;
+  bool dirty = (x & ~mask_bits(static_cast<int>(which))) != 0;
+  if (which == 24 && (x >> 32)) throw std::logic_error("ext24 argument wider than 32 bits");
+  if (dirty && !negative) throw std::logic_error("stray upper bits on a non-negative narrow value: outside the asserted domain");
   uint64_t r = call_ext(static_cast<int>(which), x);
-  uint64_t e = ref_sext(x, static_cast<int>(which), which == 24 ? 32 : 64);
+  uint64_t e = ref_sext(x & mask_bits(static_cast<int>(which)), static_cast<int>(which), which == 24 ? 32 : 64);
+  if (dirty) ctx().cls("ext:negative-narrow-value-with-stray-upper-bits");
   VCHECK(r == e, cat("ext", which), "ext", which, "(0x", std::hex, x, ") returned 0x", r, " expected 0x", e);
   if ((x >> (which - 1)) & 1) ctx().nontrivial_case();
 }
@@ -744,7 +750,10 @@ static Case gen_ext() {
   uint64_t which = vg::coin() ? 24 : 48;
   uint64_t x;
   switch (vg::below(3)) {
-    case 0: x = (1ULL << (which - 1)) | gen_bits(static_cast<int>(which)); break; // top bit of the narrow value set
+    case 0: // top bit of the narrow value set, sometimes with stray bits above the narrow width
+      x = (1ULL << (which - 1)) | gen_bits(static_cast<int>(which));
+      if (vg::coin()) x |= (which == 24 ? (vg::below(256) << 24) : (vg::below(65536) << 48));
+      break;
     case 1: x = gen_bits(static_cast<int>(which) - 1); break;
     default: x = gen_bits(static_cast<int>(which)); break;
   }
@@ -922,8 +931,16 @@ static void enum_ext(Enum& e) {
         break;
       }
       if ((x & 0x800000) && (x & 63) == 21) e.x.nontrivial(mix(0xE87000, x));
+      if (x & 0x800000) {
+        // negative narrow value below a stray tag byte: the upper byte must still come out as all ones
+        uint64_t d = x | (((x * 0x9E37u) >> 7 & 0xFF) << 24);
+        if (call_ext(24, d) != ref_sext(x, 24, 32)) {
+          e.exec_light(Case("ext").N(24).N(d));
+          break;
+        }
+      }
     }
-    e.x.count(kBlock);
+    e.x.count(kBlock + (lo >= 0x800000 ? kBlock : 0));
   }
   if (e.mine(idx++)) {
     std::vector<uint64_t> vals = int_values(48);
@@ -932,10 +949,11 @@ static void enum_ext(Enum& e) {
       vals.push_back((1ULL << k) - 1);
       vals.push_back(mask_bits(48) & ~(1ULL << k));
       vals.push_back((1ULL << 47) | (1ULL << k));
+      for (uint64_t tag : {0x0001ULL, 0x7FFFULL, 0x8000ULL, 0xFFFFULL, 0x00FFULL}) vals.push_back((tag << 48) | (1ULL << 47) | (1ULL << k));
     }
     for (uint64_t v : vals) e.exec(Case("ext").N(48).N(v));
   }
-  e.complete("all 2^24 arguments of ext24; boundary, single-bit, all-but-one-bit and top-bit-plus-one-bit 48-bit arguments of ext48");
+  e.complete("all 2^24 arguments of ext24 and every negative 24-bit value under one stray tag byte; boundary, single-bit, all-but-one-bit and top-bit-plus-one-bit 48-bit arguments of ext48");
 }
 
 // Dense pseudo-random sampling of the 32/48/64-bit domains in a hot loop (not exhaustive). The stream is a pure
